@@ -437,6 +437,9 @@ func (vc *FuncVC) applyContract(st *State, reach Term, ins *ssa.Call, callee *ss
 			}
 		}
 	}
+	if labels := vc.fc.Imports[name]; len(labels) > 0 && fc.Delegate != "" {
+		vc.importDelegate(st, pre, reach, fc, envPre, vars, labels)
+	}
 	if vc.fc.Delegate == name && vc.discovery == 0 {
 		dc := &delegCall{reach: reach, res: res, after: st.clone(), pos: ins.Pos()}
 		for i := range common.Args {
@@ -444,6 +447,65 @@ func (vc *FuncVC) applyContract(st *State, reach Term, ins *ssa.Call, callee *ss
 		}
 		vc.dcalls = append(vc.dcalls, dc)
 	}
+}
+
+// importDelegate: what class T proves about a wrapper (it performs exactly the delegated operation when no
+// error is pending, ors its flags into e.Flags and records its error) lets a caller of the wrapper use
+// the operation's own postconditions.
+func (vc *FuncVC) importDelegate(st, pre *State, reach Term, fc *FuncContract, envPre *Env, vars map[string]SVal, labels []string) {
+	dfc := vc.W.spec.Funcs[fc.Delegate]
+	dfn := vc.W.funcs[fc.Delegate]
+	if dfc == nil || dfn == nil {
+		panic("import: unknown delegate " + fc.Delegate)
+	}
+	ev := vars["e"]
+	oldErr := vc.fieldOf(pre, ev.T, ev.Ty.Elem, "err").T
+	oldFlags := vc.fieldOf(pre, ev.T, ev.Ty.Elem, "Flags").T
+	ctx := vc.fieldOf(pre, ev.T, ev.Ty.Elem, "Ctx")
+	traps := vc.fieldOf(pre, ctx.T, ctx.Ty.Elem, "Traps").T
+	sys := BVLit(3)
+	pending := Or(Ne(oldErr, IntLit(0)), Ne(app(SBV, "bvand", oldFlags, sys), BVLit(0)), Ne(app(SBV, "bvand", oldFlags, traps), BVLit(0)))
+	newErr := vc.fieldOf(st, ev.T, ev.Ty.Elem, "err").T
+	newFlags := vc.fieldOf(st, ev.T, ev.Ty.Elem, "Flags").T
+	sig := dfn.Signature
+	var names []string
+	if sig.Recv() != nil {
+		names = append(names, sig.Recv().Name())
+	}
+	for i := 0; i < sig.Params().Len(); i++ {
+		names = append(names, sig.Params().At(i).Name())
+	}
+	if len(names) != len(fc.DelegateArgs) {
+		panic("import: argument count of " + fc.Delegate)
+	}
+	dvars := map[string]SVal{}
+	for i, ax := range fc.DelegateArgs {
+		dvars[names[i]] = envPre.eval(ax)
+	}
+	n := sig.Results().Len()
+	if n < 2 {
+		panic("import: delegate must return (..., Condition, error)")
+	}
+	for i := 0; i < n; i++ {
+		t := sig.Results().At(i).Type()
+		v := vc.freshVal("dr_"+dfn.Name(), t)
+		dvars[fmt.Sprintf("ret%d", i)] = vc.toSVal(v, t)
+	}
+	dvars["ret"] = dvars["ret0"]
+	flagsT, errT := dvars[fmt.Sprintf("ret%d", n-2)].T, dvars[fmt.Sprintf("ret%d", n-1)].T
+	envD := &Env{g: vc.Gen, cur: st, old: pre, vars: dvars}
+	want := map[string]bool{}
+	for _, l := range labels {
+		want[l] = true
+	}
+	guard := And(reach, Not(pending))
+	for _, en := range dfc.Ensures {
+		if !want[en.Name] || mentionsUnknown(vc.W, en.E, dvars) {
+			continue
+		}
+		vc.assume(Implies(guard, envD.boolean(en.E)))
+	}
+	vc.assume(Implies(guard, And(Eq(newFlags, app(SBV, "bvor", oldFlags, flagsT)), Eq(newErr, errT))))
 }
 
 // delegationChecks (class T): the function performs exactly one call of the named operation with the
@@ -522,7 +584,10 @@ func (vc *FuncVC) delegationChecks(st *State, reach Term, k int, pos token.Pos) 
 
 func (vc *FuncVC) execReturn(st *State, reach Term, ins *ssa.Return) {
 	vc.retOrd++
-	k := vc.retOrd
+	k := vc.retNum[ins]
+	if k == 0 {
+		k = vc.retOrd
+	}
 	vars := map[string]SVal{}
 	for i, r := range ins.Results {
 		v := vc.val(r)
@@ -542,6 +607,16 @@ func (vc *FuncVC) execReturn(st *State, reach Term, ins *ssa.Return) {
 	}
 	env := vc.env(st, vars)
 	tags := vc.propTags()
+	for _, h := range vc.fc.PostHints {
+		call, ok := h.E.(*ECall)
+		if !ok || vc.W.spec.lemma(call.Fn) == nil {
+			panic("posthint must be a lemma application: " + h.Src)
+		}
+		if vc.mentionsUnallocatedLocal(h.E, vars) {
+			continue
+		}
+		vc.assume(Implies(reach, instantiateLemma(env, vc.W.spec.lemma(call.Fn), call.Args)))
+	}
 	for j, en := range vc.fc.Ensures {
 		if vc.mentionsUnallocatedLocal(en.E, vars) {
 			continue // the clause talks about a local that does not exist yet at this return
